@@ -35,6 +35,7 @@ import (
 	"strconv"
 	"strings"
 	"sync"
+	"sync/atomic"
 	"time"
 
 	"github.com/ipfs/ipfs-cluster/api"
@@ -85,13 +86,16 @@ type cnode struct {
 	cc     *raft.Consensus
 	folder string
 	up     bool
+	ready  chan string   // what the peer looked like at the instant Ready() fired: "<lvs>@<pinset>"
+	stop   chan struct{} // closed when the instance is shut down
 }
 
 type cworld struct {
-	dir     string
-	retries int
-	nodes   []*cnode
-	byID    map[peer.ID]int
+	dir         string
+	slowCatchUp bool // one entry per AppendEntries: a joiner needs many round trips to catch up
+	retries     int
+	nodes       []*cnode
+	byID        map[peer.ID]int
 }
 
 const rpcProto = "/verif/c17/rpc"
@@ -126,6 +130,9 @@ func (w *cworld) raftCfg(n *cnode, init []int) *raft.Config {
 	cfg.RaftConfig.ElectionTimeout = 1000 * time.Millisecond
 	cfg.RaftConfig.LeaderLeaseTimeout = 500 * time.Millisecond
 	cfg.RaftConfig.CommitTimeout = 50 * time.Millisecond
+	if w.slowCatchUp {
+		cfg.RaftConfig.MaxAppendEntries = 1
+	}
 	for _, i := range init {
 		if i != n.idx {
 			cfg.InitPeerset = append(cfg.InitPeerset, w.nodes[i].id)
@@ -184,6 +191,27 @@ func (w *cworld) startNode(n *cnode, staging bool, init []int) error {
 	if err := srv.RegisterName("PinTracker", trackerSvc{}); err != nil {
 		return err
 	}
+	n.ready = make(chan string, 1)
+	n.stop = make(chan struct{})
+	go func(cc *raft.Consensus, ready chan string, stop chan struct{}) {
+		select {
+		case <-cc.Ready(context.Background()):
+			info, err := cc.VerifRaftInfo()
+			pins, ok := pinsetOf(cc)
+			if err != nil || !ok {
+				ready <- "err"
+				return
+			}
+			b := func(x bool) string {
+				if x {
+					return "1"
+				}
+				return "0"
+			}
+			ready <- fmt.Sprintf("%s%s%s@%s", b(info.Leader != ""), b(info.Voter), b(info.Applied == info.Last), pins)
+		case <-stop:
+		}
+	}(cc, n.ready, n.stop)
 	cc.SetClient(rpc.NewClientWithServer(n.h, rpcProto, srv))
 	n.up = true
 	return nil
@@ -191,6 +219,7 @@ func (w *cworld) startNode(n *cnode, staging bool, init []int) error {
 
 func (w *cworld) stopNode(n *cnode) {
 	if n.cc != nil && n.up {
+		close(n.stop)
 		n.cc.Shutdown(context.Background())
 	}
 	n.up = false
@@ -394,6 +423,11 @@ func runConsScript(out *common.Out, mu *sync.Mutex, scratch string, tag string, 
 	}
 	defer w.close()
 	os.RemoveAll(w.dir)
+	for _, op := range s.ops {
+		if strings.HasPrefix(op, "bulk@") {
+			w.slowCatchUp = true
+		}
+	}
 	for _, i := range s.init {
 		if err := w.ensureHost(w.nodes[i]); err != nil {
 			emit("# inconclusive host %v", err)
@@ -408,7 +442,7 @@ func runConsScript(out *common.Out, mu *sync.Mutex, scratch string, tag string, 
 	}
 	for _, i := range s.init {
 		n := w.nodes[i]
-		if !within(60*time.Second, func() { <-n.cc.Ready(context.Background()) }) {
+		if !within(60*time.Second, func() { <-n.ready }) {
 			emit("# inconclusive initial-ready-timeout %s", s.head())
 			return
 		}
@@ -452,6 +486,19 @@ func runConsScript(out *common.Out, mu *sync.Mutex, scratch string, tag string, 
 			return
 		}
 	}
+}
+
+// validPinArg accepts only canonical pin tokens (without origins: see K01) and cid indexes of the naming table.
+func validPinArg(kind, arg string) bool {
+	if kind == "unpin" {
+		v := atoi(arg)
+		return v >= 0 && v < common.PinUniverse
+	}
+	f := strings.Split(arg, "/")
+	if len(f) != 14 || atoi(f[0]) < 0 || atoi(f[0]) >= common.PinUniverse || f[11] != "-" {
+		return false
+	}
+	return common.PinTok(common.PinOf(arg)) == arg
 }
 
 func atoi(s string) int {
@@ -560,7 +607,7 @@ func (w *cworld) exec(op string) (string, bool) {
 			return "", true
 		}
 		at := w.node(f[1])
-		if at == nil || !at.up {
+		if at == nil || !at.up || !validPinArg(f[0], f[2]) {
 			return "", true
 		}
 		r := role(at)
@@ -576,6 +623,45 @@ func (w *cworld) exec(op string) (string, bool) {
 			return "", false
 		}
 		return fmt.Sprintf("%s@%s@%s@%s@%s", f[0], f[1], f[2], resTok(err), r), true
+	case "bulk":
+		// a long log: n identical-per-cid pins logged concurrently (marker only: the driver ignores it, the
+		// script re-asserts the same five pins right after)
+		if len(f) < 3 {
+			return "", true
+		}
+		at, n := w.node(f[1]), atoi(f[2])
+		if at == nil || !at.up || n <= 0 || n > 5000 {
+			return "", true
+		}
+		var wg sync.WaitGroup
+		var failed int32
+		work := make(chan int, n)
+		for k := 0; k < n; k++ {
+			work <- k
+		}
+		close(work)
+		okAll := within(opTimeout, func() {
+			for g := 0; g < 16; g++ {
+				wg.Add(1)
+				go func() {
+					defer wg.Done()
+					for k := range work {
+						if err := at.cc.LogPin(ctx, common.PinOf(fmt.Sprintf(bulkShape, k%5))); err != nil {
+							atomic.AddInt32(&failed, 1)
+						}
+					}
+				}()
+			}
+			wg.Wait()
+		})
+		if !okAll || failed > 0 {
+			return "", false
+		}
+		toks := []string{fmt.Sprintf("bulk@%s@%d", f[1], n)}
+		for c := 0; c < 5; c++ {
+			toks = append(toks, fmt.Sprintf("pin@%s@%s@ok@%s", f[1], fmt.Sprintf(bulkShape, c), role(at)))
+		}
+		return strings.Join(toks, " "), true
 	case "ready":
 		if len(f) < 2 {
 			return "", true
@@ -584,22 +670,11 @@ func (w *cworld) exec(op string) (string, bool) {
 		if n == nil || !n.up {
 			return "", true
 		}
-		fired := within(60*time.Second, func() { <-n.cc.Ready(ctx) })
-		if !fired {
+		snap := ""
+		if !within(60*time.Second, func() { snap = <-n.ready }) || snap == "err" {
 			return "", false
 		}
-		info, err := n.cc.VerifRaftInfo()
-		pins, ok := pinsetOf(n.cc)
-		if err != nil || !ok {
-			return "", false
-		}
-		b := func(x bool) string {
-			if x {
-				return "1"
-			}
-			return "0"
-		}
-		return fmt.Sprintf("ready@%s@%s%s%s@%s", f[1], b(info.Leader != ""), b(info.Voter), b(info.Applied == info.Last), pins), true
+		return fmt.Sprintf("ready@%s@%s", f[1], snap), true
 	case "sync":
 		if len(f) < 2 {
 			return "", true
@@ -678,6 +753,8 @@ func (w *cworld) exec(op string) (string, bool) {
 
 // ---------------------------------------------------------------- generators
 
+const bulkShape = "%d/d/-1:-1/5/r/-1/0/-/z/-/-/-/-/-"
+
 var pinShapes = []string{
 	"%d/d/-1:-1/0/r/-1/0/-/z/-/-/-/-/-",
 	"%d/d/1:2/3/r/-1/0/1,2/z/-/-/-/-/-",
@@ -701,17 +778,27 @@ func genConsScript(r *common.Rng, tier string) cscript {
 	if tier == "thorough" {
 		maxPeer = 4
 	}
-	switch r.Intn(6) {
-	case 0:
+	switch r.Intn(8) {
+	case 0, 1:
 		s.init = []int{0, 1}
-	case 1:
-		if maxPeer >= 3 {
-			s.init = []int{0, 1, 2}
-		} else {
-			s.init = []int{0}
-		}
+	case 2, 3:
+		s.init = []int{0, 1, 2}
 	default:
 		s.init = []int{0}
+	}
+	if r.Chance(1, 10) {
+		// a joiner that has a long log to catch up with, one entry per round trip
+		s.init = []int{0}
+		n := 300 + 100*r.Intn(4)
+		s.ops = append(s.ops, fmt.Sprintf("bulk@0@%d", n))
+		for c := 0; c < 5; c++ {
+			s.ops = append(s.ops, fmt.Sprintf("pin@0@%s", fmt.Sprintf(pinShapes[1+r.Intn(3)], c)))
+		}
+		s.ops = append(s.ops, "start@1", "add@0@1", "ready@1")
+		if r.Bool() {
+			s.ops = append(s.ops, "rm@1@0", "clean@0")
+		}
+		return s
 	}
 	g := &genState{members: map[int]bool{}, started: map[int]bool{}, hasData: map[int]bool{}, nonvote: map[int]bool{}, maxPeer: maxPeer}
 	for _, i := range s.init {
